@@ -42,6 +42,10 @@ func (e *OpEngine) ctorNoErr(pkg, name string, args ...interp.Value) func(e *OpE
 			e.find("A4.pre", key, "rejects-valid", e.P.FuncPos(fn), "constructor rejects a valid configuration [instance "+label+"]")
 			return nil, false
 		}
+		// the caller still owns its configuration and may change or reuse it: the object keeps what it was built with
+		for _, a := range args {
+			e.poisonConfig(a)
+		}
 		return out.Results[0], true
 	}
 }
